@@ -34,6 +34,7 @@ type seqOracles struct {
 	stream    bool           // tap-based stream checks (nothing emitted for rollbacks, ...)
 	final     func(w *World) // extra checks on the final state (fault enumeration)
 	start     func(w *World) // called once the primary exists and is prefilled, before the first step
+	each      func(w *World) // called after every step
 	roundtrip bool           // every emitted commit is also cloned and serialized through the simulated disk
 }
 
@@ -272,6 +273,9 @@ func runSeq(cs *Case, or seqOracles) (w *World) {
 		}
 		if !check(i) {
 			return w
+		}
+		if or.each != nil {
+			or.each(w)
 		}
 		if twin != nil && w.viol == nil {
 			if v := CompareDump(twin.primary, w.model, cs.Cfg.KeyAlpha, nil); v != nil {
